@@ -676,6 +676,17 @@ def c04_scripts(ctx):
     for _ in range(n):
         N = rng.choice((1, 2, 2, 3, 3, 4, rng.randint(1, 8)))
         reqs, ress, rq, rs = traffic.gen_exchange(rng, n=N, opts={"folding": False, "repeat": False, "close_delimited": True})
+        # some exchanges become refused CONNECTs (the connection stays HTTP): the request side suspends at each of them until
+        # the response side has seen the status, so pairing under pipelining also depends on the hand-over between the directions
+        has_connect = False
+        if N >= 2 and rng.random() < 0.3:
+            for i in range(N):
+                if rng.random() < 0.5 and (i < N - 1 or ress[i].headers):
+                    has_connect = True
+                    reqs[i].method = b"CONNECT"
+                    reqs[i].target = b"h%d.example:443" % i
+                    rq[i] = b"CONNECT h%d.example:443 HTTP/1.1\r\nHost: h%d.example:443\r\n\r\n" % (i, i)
+                    rs[i] = b"HTTP/1.1 %s\r\nX-Id: id%d\r\nContent-Length: 0\r\n\r\n" % (rng.choice((b"403 Forbidden", b"407 Auth", b"500 Err")), i)
         # pieces per message, then a legal merge: response i only after the whole of request i
         rpieces = [traffic.chunkings(x, rng, rng.choice(("whole", "whole", "rand"))) for x in rq]
         spieces = [traffic.chunkings(x, rng, rng.choice(("whole", "whole", "rand"))) for x in rs]
@@ -710,8 +721,10 @@ def c04_scripts(ctx):
             if d == ">" and first and i > res_started:
                 pipelined = True
         items = [d + traffic.hx(p) for d, i, first, p in seq]
-        out.append(traffic.script(rng.choice(("respdecomp=0", "p=IDS,respdecomp=0")), "-", items))
-        meta.append({"N": N, "pipelined": pipelined, "reqs": reqs})
+        out.append(traffic.script(rng.choice(("respdecomp=0", "p=IDS,respdecomp=0")), "-", items, op="pump" if has_connect else "play"))
+        # with a suspended CONNECT the library itself decides when the held-back request is started, so the wire schedule is no
+        # ground truth for the pipelining indicator there (the indicator is still compared with the model by the correspondence)
+        meta.append({"N": N, "pipelined": None if has_connect else pipelined, "reqs": reqs})
     return out, meta
 
 
@@ -738,7 +751,7 @@ def make_c04_oracle(by_id):
             if cl.unhx(t["m"]) != w["reqs"][i].method or uri != w["reqs"][i].target:
                 found.append(("order", "transaction %d carries request %r %r, expected %r %r" % (i, cl.unhx(t["m"]), uri, w["reqs"][i].method, w["reqs"][i].target)))
         pip = (int(g.get("conn_flags", "0")) & 1) != 0
-        if pip != w["pipelined"]:
+        if w["pipelined"] is not None and pip != w["pipelined"]:
             found.append(("pipelined-flag", "pipelining indicator %s, schedule says %s" % (pip, w["pipelined"])))
         return found
     return oracle
@@ -762,7 +775,21 @@ def c10_scripts(ctx):
     for _ in range(n):
         hard = rng.choice((1, 2, 17, 100, 100, 18000))
         maxtx = rng.choice((0, 0, 1, 2, 5))
-        kind = rng.choice(("longline", "folds", "repeats", "manytx", "mixed", "chunkline", "resline"))
+        kind = rng.choice(("longline", "folds", "repeats", "manytx", "mixed", "chunkline", "resline", "pipefreed"))
+        if kind == "pipefreed":
+            # pipelined requests, responses one by one, htp_connp_tx_freed after each completion, dump after every step (model-corresponded)
+            k = rng.randint(2, 4)
+            cfgs = "respdecomp=0,autodestroy=1,log=0" + (",maxtx=%d" % maxtx if maxtx else "")
+            rq = b"GET /pf HTTP/1.1\r\nHost: h\r\n\r\n"
+            rs = b"HTTP/1.1 200 OK\r\nContent-Length: 1\r\n\r\nx"
+            sc = ["conn new %s -" % cfgs, "conn open"]
+            for _r in range(rng.randint(2, 5)):
+                sc += ["conn req " + traffic.hx(rq * k), "conn dump"]
+                for _j in range(k):
+                    sc += ["conn res " + traffic.hx(rs), "conn txfreed", "conn dump"]
+            sc += ["conn close", "conn dump", "conn destroy"]
+            out.append(sc); meta.append({"hard": 18000, "maxtx": maxtx})
+            continue
         R = b""
         S = b""
         if kind == "longline":
@@ -859,7 +886,30 @@ def c10_steady_state(ctx):
         found.append(("steady-run-failed", "harness rc=%s, %d samples" % (rc, len(mems))))
     elif mems[-1] > mems[1]:
         found.append(("memory-grows", "live heap %d bytes after 200 transactions, %d after %d" % (mems[1], mems[-1], n)))
-    return found, {"steady_state_transactions": n, "steady_state_live_heap_samples": mems[:3] + mems[-2:]}
+    # the same with pipelining: three requests outstanding, responses one by one, freed slots recycled after every completion
+    sc2 = ["conn new respdecomp=0,autodestroy=1,log=0 -", "conn open"]
+    rounds = n // 3
+    for i in range(rounds):
+        sc2 += ["conn req " + req * 3]
+        for _ in range(3):
+            sc2 += ["conn res " + res, "conn txfreed"]
+        if i % 40 == 39:
+            sc2 += ["conn mem", "conn dump"]
+    sc2 += ["conn close", "conn destroy"]
+    co2, ce2, rc2 = lib.run_c(ctx.corr, sc2)
+    mems2 = [int(o[4:]) for l, o in zip(sc2, co2) if l == "conn mem" and o.startswith("mem=")]
+    ntx = [int(cl.parse_dump(o)[0].get("ntx", -1)) for l, o in zip(sc2, co2) if l == "conn dump"]
+    if rc2 != 0 or len(mems2) < 3:
+        found.append(("steady-run-failed", "pipelined: harness rc=%s, %d samples" % (rc2, len(mems2))))
+    else:
+        if mems2[-1] > mems2[1]:
+            found.append(("memory-grows", "pipelined: live heap %d bytes after 240 transactions, %d after %d" % (mems2[1], mems2[-1], rounds * 3)))
+        if max(ntx) > 4:
+            found.append(("slots-grow", "pipelined: the connection holds %d transaction slots after %d transactions with at most 3 outstanding" % (
+                max(ntx), rounds * 3)))
+    return found, {"steady_state_transactions": n, "steady_state_live_heap_samples": mems[:3] + mems[-2:],
+                   "pipelined_steady_state_transactions": rounds * 3, "pipelined_live_heap_samples": mems2[:3] + mems2[-2:],
+                   "pipelined_slots_held": ntx[:2] + ntx[-2:]}
 
 
 RULES["C10"] = ("hard limit in {1,2,17,100,18000} x max_tx in {0,1,2,5} x families (long request/status/header lines around the limit, "
@@ -1008,7 +1058,22 @@ def c02_scripts(ctx):
         R, S = b"".join(rq), b"".join(rs)
         cfg = rng.choice(("respdecomp=0,urlenc=1", "p=IDS,respdecomp=0,urlenc=1", "p=APACHE_2,respdecomp=0,urlenc=1", "p=IIS_7_5,respdecomp=0,urlenc=1",
                           "p=GENERIC,respdecomp=0,urlenc=1"))
-        out.append(traffic.script(cfg, "-", [">" + traffic.hx(R), "<" + traffic.hx(S)]))
+        # fidelity must not depend on how the bytes arrive: whole streams, one call per line, or random segments
+        mode = rng.choice(("whole", "whole", "lines", "rand"))
+
+        def pieces(data):
+            if mode == "whole" or not data:
+                return [data] if data else []
+            if mode == "lines":
+                out_, prev = [], 0
+                for i, b in enumerate(data):
+                    if b == 0x0a:
+                        out_.append(data[prev:i + 1]); prev = i + 1
+                if prev < len(data):
+                    out_.append(data[prev:])
+                return out_
+            return traffic.chunkings(data, rng, "rand")
+        out.append(traffic.script(cfg, "-", [">" + traffic.hx(p) for p in pieces(R)] + ["<" + traffic.hx(p) for p in pieces(S)]))
         meta.append({"reqs": reqs, "ress": ress})
     return out, meta
 
